@@ -613,6 +613,13 @@ func (fc *FnCtx) trComposite(st *State, x *ast.CompositeLit) Val {
 			cur = "(appendbyte " + cur + " " + v.T + ")"
 		}
 		return Val{T: cur, S: SStr, GT: t}
+	case SIL:
+		cur := "(mkil ((as const (Array Int Int)) 0) 0)"
+		for i, el := range x.Elts {
+			v := fc.tr(st, el)
+			cur = fmt.Sprintf("(mkil (store (ints %s) %d %s) %d)", cur, i, v.T, i+1)
+		}
+		return Val{T: cur, S: SIL, GT: t}
 	case SBuf:
 		v := fc.freshVal(st, "buf", SBuf, t)
 		st.env[v.Rec] = Val{T: "emptystr", S: SStr}
